@@ -129,6 +129,8 @@ class Algebra(object):
         self.int_mod = int_mod
         self.maxdepth = 0
         self.names = {}
+        self.expand_angles = False   # sin/cos of a sum of monomials are expanded by the angle-addition formulas
+        self.acos_exact = False      # cos(acos_approx(c)) = c and sin(acos_approx(c)) = sqrt(1 - c^2) (the arccos read as exact)
         self.budget = None    # optional cap on monomial products per multiplication (raises ValueError)
 
     # variables ------------------------------------------------------------------------
@@ -389,12 +391,62 @@ class Algebra(object):
             self.rel[vs] = Poly.const(1) - Poly({((vc, 2),): Fraction(1)})   # sin^2 -> 1 - cos^2
         return vs, vc, sign
 
+    def _split_angle(self, a):
+        """a = m + rest for an argument that is a sum of at least two monomials (angle-addition expansion); None otherwise"""
+        a = self.r_norm(a)
+        n, d = a
+        if d != ONE or len(n.t) < 2:
+            return None
+        ms = sorted(n.t.items(), key=lambda kv: (len(kv[0]), str(kv[0])))
+        m0, c0 = ms[-1]
+        first = (Poly({m0: c0}), ONE)
+        rest = (Poly({m: c for m, c in ms[:-1]}), ONE)
+        return first, rest
+
+    def _acos_of(self, a):
+        """when a is exactly the symbol acos_approx(c) / acos(c): the rational c"""
+        a = self.r_norm(a)
+        n, d = a
+        if d != ONE or len(n.t) != 1:
+            return None
+        (m, c), = n.t.items()
+        if c != 1 or len(m) != 1 or m[0][1] != 1:
+            return None
+        info = self.var_info.get(m[0][0], ('?',))
+        if info[0] != 'fn' or info[1] not in ('acos_approx', 'acos'):
+            return None
+        pl = info[2]
+        if isinstance(pl, tuple) and pl and pl[0] == 'rat':
+            return pl[1][0]
+        if isinstance(pl, T):
+            return self.nf(pl.args[0])
+        return None
+
     def sin_r(self, a):
+        if self.acos_exact:
+            c = self._acos_of(a)
+            if c is not None:
+                # sin(acos c) = sqrt(1 - c^2)
+                return self.sqrt_r(self.r_add((Poly.const(1), ONE), self.r_neg(self.r_mul(c, c))))
+        if self.expand_angles:
+            sp = self._split_angle(a)
+            if sp is not None:
+                x, y = sp
+                return self.r_add(self.r_mul(self.sin_r(x), self.cos_r(y)), self.r_mul(self.cos_r(x), self.sin_r(y)))
         vs, vc, sign = self._sincos_vars(a)
         p = Poly.var(vs)
         return (p if sign > 0 else -p, ONE)
 
     def cos_r(self, a):
+        if self.acos_exact:
+            c = self._acos_of(a)
+            if c is not None:
+                return c
+        if self.expand_angles:
+            sp = self._split_angle(a)
+            if sp is not None:
+                x, y = sp
+                return self.r_add(self.r_mul(self.cos_r(x), self.cos_r(y)), self.r_neg(self.r_mul(self.sin_r(x), self.sin_r(y))))
         vs, vc, sign = self._sincos_vars(a)
         return (Poly.var(vc), ONE)
 
@@ -406,7 +458,7 @@ class Algebra(object):
     def fn_r(self, op, args):
         """opaque function symbol applied to rational values"""
         keys = tuple(self.r_key(self.r_norm(a)) for a in args)
-        return (Poly.var(self.opaque_fn(op, keys, None)), ONE)
+        return (Poly.var(self.opaque_fn(op, keys, ('rat', [self.r_norm(a) for a in args]))), ONE)
 
     def _opaque_key(self, a):
         # structural key of a non-arithmetic subterm, via nf of its own arguments
